@@ -43,8 +43,13 @@ class EmptyLenVertex(Vertex):
         return 0
 
 
-VERTEX_CLASSES = {"Vertex": Vertex, "SubVertex": SubVertex, "FalsyVertex": FalsyVertex,
-                  "EmptyLenVertex": EmptyLenVertex}
+class TaggedVertex(Vertex):
+    """carries the searched attribute on the CLASS (value class 1) unless an instance value overrides it"""
+    tag = 1
+
+
+VERTEX_CLASSES = {"Vertex": None, "PlainVertex": Vertex, "SubVertex": SubVertex, "FalsyVertex": FalsyVertex,
+                  "EmptyLenVertex": EmptyLenVertex, "tagged-mixed": [FalsyVertex, TaggedVertex, Vertex]}
 
 
 def h(*parts) -> int:
@@ -119,6 +124,20 @@ def desc(q, a, f=NOF, g=NOF, M=(-1,), attr=()):
     return {"q": q, "a": list(a), "f": f, "g": g, "M": list(M), "attr": list(attr)}
 
 
+def get_universe_reused(w, M, cache):
+    """the same Universe object for every call, its membership edited (remove / add) to become M"""
+    u = cache.get("reused")
+    if u is None:
+        u = cache["reused"] = Universe()
+    want = [w.o(n) for n in M]
+    for v in list(u.vertices):
+        if not any(v is x for x in want):
+            u.remove_vertex(v)
+    for x in want:
+        u.add_vertex(x)
+    return u
+
+
 def get_universe(w, M, cache):
     M = tuple(M)
     if M == (-1,):
@@ -152,10 +171,27 @@ def sought_value(cls):
 def set_attrs(w, attr, n):
     for v in range(1, n + 1):
         ob = w.o(v)
-        if hasattr(ob, "tag"):
+        if "tag" in vars(ob):
             delattr(ob, "tag")
         if v <= len(attr) and attr[v - 1]:
             ob.tag = stored_value(attr[v - 1], v)
+
+
+def value_class(x):
+    if x is None:
+        return 4
+    if isinstance(x, str):
+        return 2 if x == "ab" else -1
+    return 1 if x == 1 else -1
+
+
+def effective_attrs(w, attr, n):
+    """what each vertex REALLY answers for the attribute (an instance value, a class-level value, or nothing)"""
+    out = list(attr)
+    for v in range(1, n + 1):
+        ob = w.o(v)
+        out[v - 1] = value_class(getattr(ob, "tag")) if hasattr(ob, "tag") else 0
+    return out
 
 
 def exec_probe(w, p, cache):
@@ -177,15 +213,20 @@ def exec_probe(w, p, cache):
         res = call(lambda: sorted(w.n_link(e) for e in helpers.find_links(
             w.o(a[0]), w.o(a[1]), direction_sensitive=bool(a[2]), unknown_handling=a[3], filterfunc=ff)))
     elif q in TRAV:
-        uni = get_universe(w, p["M"], cache)
+        uni = get_universe_reused(w, p["M"], cache) if p.get("reuse") else get_universe(w, p["M"], cache)
         fvf, frf = mk_filter(w, p["f"], 2), mk_vfilter(w, p["g"])
         res = call(lambda: nums(w, list(TRAV[q](uni, w.o(a[0]), direction_sensitive=a[1],
                                                 unknown_handling=a[2], ff_via=fvf, ff_result=frf))))
     elif q in SEARCH:
         uni = get_universe(w, p["M"], cache)
         set_attrs(w, p["attr"], w.bv)
+        eff = effective_attrs(w, p["attr"], w.bv)
         res = call(lambda: [w.n_obj(SEARCH[q](uni, w.o(a[0]), "tag", sought_value(a[1])))])
         set_attrs(w, [], w.bv)
+        out = dict(p)
+        out["attr"] = eff
+        out["res"] = res
+        return out
     else:
         raise ValueError(q)
     out = dict(p)
@@ -242,6 +283,12 @@ def descs_trav(S, density, salt, big=False, unks=(0, 1, 2)):
                     combos.append((which, fv, fr))
                 for which, fv, fr in combos:
                     yield desc(which, (s, d, u), f=fv, g=fr, M=M)
+                if M != (-1,) and hv % 3 == 0:
+                    # the same Universe object as in earlier calls, edited in between (same size, other members)
+                    for which in ("bft", "dftr", "dfti"):
+                        dsc = desc(which, (s, d, u), M=M)
+                        dsc["reuse"] = True
+                        yield dsc
 
 
 def attr_vectors(n, salt, count):
@@ -285,7 +332,8 @@ def descs_search(S, salt, count, big=False):
                         yield desc(q, (s, val), M=M, attr=attr)
 
 
-CACHE_KEYS_QUICK = [(0, 1, NOF), (1, 1, NOF), (2, 1, NOF), (0, 2, NOF), (1, 1, sel(L=[1]))]
+CACHE_KEYS_QUICK = [(0, 0, NOF), (1, 0, NOF), (0, 1, NOF), (1, 1, NOF), (2, 1, NOF), (1, 2, NOF), (0, 2, NOF),
+                    (2, 0, NOF), (1, 1, sel(L=[1]))]
 CACHE_KEYS_FULL = [(d, u, f) for d in (0, 1, 2) for u in (0, 1, 2) for f in (NOF, sel(L=[1]), sel(V=[2]))]
 
 
